@@ -571,6 +571,25 @@ end B
 
 end TV.Props.C16
 
+/-- **C03 / C16, several targets.**  UDP and TCP probes carry no trace identifier, so tracers of one
+invocation could not tell their answers apart: the command line accepts more than one target (or
+`--dns-resolve-all`) only for ICMP, and only in the modes that can show several traces. -/
+theorem TV.Props.C16.several_targets_only_for_icmp (mode : TV.Builder.OutMode) (proto : TV.Strat.Proto) (n : Nat) (all : Bool)
+    (hs : n > 1 ∨ all = true) :
+    TV.Builder.validateMulti mode proto n all = true ↔ proto = TV.Strat.Proto.icmp ∧ mode.singleTrace = false := by
+  have hsev : (decide (n > 1) || all) = true := by
+    rcases hs with h | h
+    · simp [h]
+    · simp [h]
+  unfold TV.Builder.validateMulti
+  cases hm : mode.singleTrace <;> cases proto <;> simp [hsev]
+
+/-- a single target is accepted in every mode for every protocol -/
+theorem TV.Props.C16.single_target_accepted (mode : TV.Builder.OutMode) (proto : TV.Strat.Proto) :
+    TV.Builder.validateMulti mode proto 1 false = true := by
+  unfold TV.Builder.validateMulti
+  cases mode.singleTrace <;> cases proto <;> simp
+
 #print axioms TV.Props.C16.layer_cli
 #print axioms TV.Props.C16.layer_file
 #print axioms TV.Props.C16.layer_default
@@ -628,3 +647,5 @@ end TV.Props.C16
 #print axioms TV.Props.C16.cli_accepted_runs
 #print axioms TV.Props.C16.cli_accepted_rejected_only_for
 #print axioms TV.Props.C16.cli_stricter_than_builder
+#print axioms TV.Props.C16.several_targets_only_for_icmp
+#print axioms TV.Props.C16.single_target_accepted
